@@ -286,8 +286,14 @@ func (r *Raft) onSnapshotTaken(t snapTaken) {
 		nowCompact, canCompact := t.meta.index, t.meta.index
 		if r.state == Leader {
 			for _, repl := range r.ldr.repls {
-				if repl.status.matchIndex < nowCompact {
-					nowCompact = repl.status.matchIndex
+				// a replication still reads the entry at its matchIndex through
+				// its current log view (prevLogTerm of the next request): keep it
+				keep := repl.status.matchIndex
+				if keep > 0 {
+					keep--
+				}
+				if keep < nowCompact {
+					nowCompact = keep
 				}
 				if repl.status.noContact.IsZero() && repl.status.matchIndex < canCompact {
 					canCompact = repl.status.matchIndex
